@@ -84,7 +84,13 @@ def dispatch_oracle(ix: Index, scn: dict) -> list[Violation]:
             if d["cbs"]:
                 out.append(Violation("undecodable-delivered", name, f"undecodable payload of {name} reached subscriber(s)"))
             return
-        # decodable, known
+        # decodable, known: delivering it must not by itself end the session (a subscriber changing the subscriptions
+        # from inside its callback included) - unless the message is the peer's DisconnectRequest, a subscriber raised or
+        # closed the session itself, or a write failed synchronously while answering it
+        if d["fatals"] and name != "DisconnectRequest" and not d.get("in_cb_close") and not d.get("excused"):
+            out.append(Violation("valid-message-closed", d["fatals"][0]["cls"], f"delivery of a well-formed {name} (turn {d['turn']}) ended the session with {d['fatals'][0]['cls']}: {d['fatals'][0]['text'][:120]}"))
+        elif d.get("loop_exc") and not d.get("excused") and not d.get("in_cb_close"):
+            out.append(Violation("valid-message-closed", "escaped:" + str(d["loop_exc"].get("exc")), f"delivery of a well-formed {name} (turn {d['turn']}) let {d['loop_exc'].get('exc')}: {str(d['loop_exc'].get('text'))[:120]} escape from data_received"))
         counts: dict = {}
         for sid, cname, data in d["cbs"]:
             counts[sid] = counts.get(sid, 0) + 1
@@ -110,13 +116,23 @@ def dispatch_oracle(ix: Index, scn: dict) -> list[Violation]:
         if cur is not None and turn != cur["turn"]:
             close_dispatch()
         if kind == "sub_add":
-            active[d["sid"]] = set(d["types"])
+            # membership is per (callable, type): a second overlapping subscription of the same callable adds its types,
+            # removing one subscription takes its types away (even those the other subscription also named)
+            active[d["sid"]] = active.get(d["sid"], set()) | set(d["types"])
             if cur is not None:
                 cur["added"].add(d["sid"])
         elif kind == "sub_remove":
-            active.pop(d["sid"], None)
+            if "types" in d:
+                active[d["sid"]] = active.get(d["sid"], set()) - set(d["types"])
+            else:
+                active.pop(d["sid"], None)
             if cur is not None:
                 cur["removed"].add(d["sid"])
+        elif kind == "sub_remove_again":
+            # calling an unsubscribe callable again discards the callable from its types again: with an overlapping
+            # second subscription of the same callable still alive that takes those types away from it as well
+            if d["sid"] in active:
+                active[d["sid"]] = active[d["sid"]] - set(d.get("types", []))
         elif kind == "pp":
             close_dispatch()
             mtype = d["type"]
@@ -158,6 +174,12 @@ def dispatch_oracle(ix: Index, scn: dict) -> list[Violation]:
         elif kind == "fatal":
             if cur is not None:
                 cur["fatals"].append(d["err"])
+        elif kind == "loop_exception":
+            if cur is not None and "data_received" in str(d.get("message")):
+                cur["loop_exc"] = d
+        elif kind in ("cb_raise", "tr_write_raised"):
+            if cur is not None:
+                cur["excused"] = True
         elif kind == "cb_force_disconnect":
             if cur is not None:
                 cur["in_cb_close"] = True
@@ -251,9 +273,18 @@ def gen_dispatch(rng: random.Random) -> dict:
     for sid in order:
         steps.append({"do": "sleep", "d": pick(rng, [0.0, 0.0, 0.3, 1.0])})
         steps.append({"do": "add_cb", "sid": sid, "types": specs[sid][0], "behaviors": specs[sid][1]})
-    for _ in range(rng.randint(0, 3)):
+    removals = [rng.choice(sids) for _ in range(rng.randint(0, 3))]
+    if rng.random() < 0.2:
+        # the same callable subscribed a second time for overlapping types; both subscriptions removed in either order
+        sid = rng.choice(sids)
+        own = specs[sid][0]
+        types2 = sorted(set(rng.sample(own, rng.randint(1, len(own))) + (rng.sample(SUB_TYPES, 1) if rng.random() < 0.5 else [])))
+        steps.append({"do": "add_cb_again", "sid": sid, "key": sid + "#2", "types": types2})
+        removals += [sid, sid + "#2"]
+        rng.shuffle(removals)
+    for r_sid in removals:
         steps.append({"do": "sleep", "d": pick(rng, [0.2, 1.0, 2.0])})
-        steps.append({"do": "remove_cb", "sid": rng.choice(sids)})
+        steps.append({"do": "remove_cb", "sid": r_sid})
     steps.append({"do": "sleep", "d": 20.0})
     steps.append({"do": "disconnect"})
     events = []
